@@ -814,3 +814,24 @@ Qed.
 (** the newest entry of the committed-header store *)
 Definition top_entry (s : kstate) : N * (hdr * cproof) :=
   match st_hdrs s with e :: _ => e | [] => (0, (mk_hdr [] false 0 [] empty_cproof empty_valset empty_valset, empty_cproof)) end.
+
+(** (i) as a statement about reachable states: every committed-header store entry of a reachable
+    mirror state is, among the votes translated from any signature list that records its
+    certificate, a precommit quorum in the sense of Model/Network.v for the validator set the
+    chain prescribes - the premise [decided] of the abstract agreement theorem. *)
+Theorem committed_is_network_quorum ih ivs s V Bh h x cp :
+  1 <= ih -> vs_ok ivs = true -> reachable_b ih ivs s ->
+  In (h, (x, cp)) (st_hdrs s) -> covers_cert V x cp ->
+  total (vs_pows (chain_vals ih ivs (st_hdrs s) h)) < two64 ->
+  hd_hash x <> [] /\
+  decided (fun _ => vs_pows (chain_vals ih ivs (st_hdrs s) h))
+          (fun _ => byz_mask (chain_vals ih ivs (st_hdrs s) h) Bh)
+          (tr_votes (vs_keys (chain_vals ih ivs (st_hdrs s) h)) h V) h (enc (hd_hash x)).
+Proof.
+  intros Hi Hok Hr Hin Hcov Hw.
+  destruct (committed_headers_good ih ivs s Hi Hok Hr _ _ _ Hin) as (Hne & _).
+  split; [exact Hne|]. split.
+  - intros E. apply enc_nil_iff in E. contradiction.
+  - exists (cp_round cp). apply cert_bquorum; [|exact Hcov|exact Hw].
+    exact (proj1 (commit_needs_certificate ih ivs s Hi Hok Hr) _ _ _ Hin).
+Qed.
